@@ -116,6 +116,13 @@ Theorem C16_other_closed_forms_are_instancewise :
 Proof. exact thm_other_closed_forms_are_instancewise. Qed.
 Print Assumptions C16_other_closed_forms_are_instancewise.
 
+(* 10b. the random-interval feature extractor, given the intervals drawn at fit *)
+Theorem C16_interval_features_are_instancewise : forall feats ivs,
+  instancewise_on (fun i : inst => i <> []) (rife_apply feats ivs)
+                  (fun i => rife_row feats ivs (only_col i)).
+Proof. exact interval_features_are_instancewise. Qed.
+Print Assumptions C16_interval_features_are_instancewise.
+
 (* 11. consequences for ANY batch-validated estimator with a local acceptance test: an accepted
        batch stays accepted under selection / permutation / restriction to one instance, and the
        outputs are the selected rows *)
